@@ -80,7 +80,8 @@ impl<M: Math, A: MassMatrixAdaptStrategy<M>> AdaptStrategy<M> for GlobalStrategy
         let early_end = (options.early_window * num_tune_f) as u64;
         let final_second_step_size = num_tune.saturating_sub(step_size_window);
 
-        assert!(early_end < num_tune);
+        // A chain without warmup (num_tune == 0) never enters the adaptation windows.
+        assert!(num_tune == 0 || early_end < num_tune);
         assert!(options.mass_matrix_window_growth >= 1.0);
 
         Self {
